@@ -33,10 +33,9 @@ from collections import Counter, defaultdict
 from typing import Any
 
 from mc import c17_model as model
-from mc.c17_eval import (INTRINSIC_G, INTRINSIC_M, baseline, dead_fields, diff, evaluate, ini_text, toml_text,
-                         workdir)
+from mc.c17_eval import INTRINSIC_G, INTRINSIC_M, baseline, dead_fields, diff, evaluate, ini_text, toml_text
 from mc.c17_table import build_table, flag_argvs, ini_literal, inline_texts, toml_literals
-from mc.common import Ctx, Result, Violation, log, same_diagnostics, scratch
+from mc.common import Ctx, Result, Violation, log, same_diagnostics, scratch, seeded_order
 from mc.kernel import chunked, pmap, run_isolated
 
 PROPERTY = "C17"
@@ -47,6 +46,7 @@ PATTERNS = ["a", "a.b", "a.b.c", "a.*", "a.b.*", "*.b", "a.*.c", "*.c", "*"]
 NAMES = ["a", "b", "c"]
 
 INI_GLOBAL_FILES = ["mypy.ini", "setup.cfg", "cfg.ini"]
+_TIER = {"thorough": False, "seed": 0}  # set in run(); workers inherit it through fork
 _DEAD: set[str] = set()  # Options fields nothing reads after option processing (set in run(), inherited by fork)
 
 
@@ -87,12 +87,13 @@ def equiv_cases(table: dict[str, Any], names: list[str] | None = None, module: s
             for key, pol in opt["keys"].items():
                 lit = ini_literal(opt, value, pol)
                 if lit is not None:
-                    for fn in INI_GLOBAL_FILES:
+                    for fn in INI_GLOBAL_FILES + ([".mypy.ini"] if _TIER["thorough"] else []):
                         extra = ["--config-file", fn] if fn.startswith("cfg.") else []
                         cases.append(_case(name, vi, f"ini-global:{fn}", key, "G", ba + extra,
                                            {fn: ini_text([("mypy", {key: lit})])}, [key, lit], module))
-                    for fn in ("mypy.ini", "setup.cfg"):
-                        cases.append(_case(name, vi, f"ini-module:{fn}", key, "M", ba,
+                    for fn in ["mypy.ini", "setup.cfg"] + ([".mypy.ini", "cfg.ini"] if _TIER["thorough"] else []):
+                        extra = ["--config-file", fn] if fn.startswith("cfg.") else []
+                        cases.append(_case(name, vi, f"ini-module:{fn}", key, "M", ba + extra,
                                            {fn: ini_text([("mypy", {}), (f"mypy-{sect}", {key: lit})])},
                                            [key, lit], module))
                 for enc, tl in toml_literals(opt, value, pol):
@@ -100,8 +101,10 @@ def equiv_cases(table: dict[str, Any], names: list[str] | None = None, module: s
                         extra = ["--config-file", fn] if fn.startswith("cfg.") else []
                         cases.append(_case(name, vi, f"toml-global<{enc}>:{fn}", key, "G", ba + extra,
                                            {fn: toml_text({key: tl}, [])}, [key, tl], module))
-                    cases.append(_case(name, vi, f"toml-module<{enc}>:pyproject.toml", key, "M", ba,
-                                       {"pyproject.toml": toml_text(None, [(sect, {key: tl})])}, [key, tl], module))
+                    for fn in ["pyproject.toml"] + (["cfg.toml"] if _TIER["thorough"] else []):
+                        extra = ["--config-file", fn] if fn.startswith("cfg.") else []
+                        cases.append(_case(name, vi, f"toml-module<{enc}>:{fn}", key, "M", ba + extra,
+                                           {fn: toml_text(None, [(sect, {key: tl})])}, [key, tl], module))
                 for label, text in inline_texts(opt, key, value, pol):
                     cases.append(_case(name, vi, "inline", label, "M", ba, {}, text, module,
                                        f"# mypy: {text}\nx = 1\n"))
@@ -155,7 +158,7 @@ def judge_equiv(table: dict[str, Any], cases: list[dict], results: list[dict]) -
     distinct_obs: set[str] = set()
     for (name, vi), idxs in sorted(groups.items()):
         opt = table[name]
-        value = cases[idxs[0]].get("value", opt["domain"][vi] if vi < len(opt["domain"]) else None)
+        value = opt["domain"][vi]
         ok = [i for i in idxs if results[i]["status"] == "ok"]
         for i in idxs:
             k = _kind(cases[i]["source"]).split("<")[0]
@@ -345,8 +348,10 @@ def effect_ok(kind: str, expected: Any, observed: Any, basev: Any) -> bool:
 
 def judge_prec(table: dict, carry: dict, cases: list[dict], results: list[dict], baseM: dict) -> tuple[list[Violation], dict]:
     effects = carry["effects"]
-    fails: list[tuple[tuple, dict, dict, dict]] = []
+    fails: list[tuple[tuple, dict, dict, dict, int]] = []
     evaluated: dict[tuple, set] = defaultdict(set)
+    ev_opt: dict[tuple[str, int], set] = defaultdict(set)  # (option, winner value) -> pair kinds judged
+    fail_opt: dict[tuple[str, int], set] = defaultdict(set)
     stats: Counter[str] = Counter()
     for c, r in zip(cases, results):
         if r["status"] != "ok":
@@ -361,6 +366,7 @@ def judge_prec(table: dict, carry: dict, cases: list[dict], results: list[dict],
             order = "|file-order=" + ">".join(s["pattern"] for s in (s0, s1))
         key = (a["inst"], b["inst"], order, winner["inst"])
         evaluated[key].add((c["opt"], c["fmt"]))
+        ev_opt[(c["opt"], win_vi)].add(key)
         stats["pairs_judged"] += 1
         stats[f"winner_{model.LEVEL_NAMES[winner['level']]}"] += 1
         exp = effects[(c["opt"], win_vi)]
@@ -371,14 +377,28 @@ def judge_prec(table: dict, carry: dict, cases: list[dict], results: list[dict],
             if not effect_ok(kind, e, r["M"].get(f), baseM.get(f)):
                 bad[f] = {"expected": e, "observed": r["M"].get(f)}
         if bad:
-            fails.append((key, c, r, bad))
+            fails.append((key, c, r, bad, win_vi))
+            fail_opt[(c["opt"], win_vi)].add(key)
     by_key: dict[tuple, list] = defaultdict(list)
-    for key, c, r, bad in fails:
-        by_key[key].append((c, r, bad))
     viols: list[Violation] = []
+    for key, c, r, bad, win_vi in fails:
+        ov = (c["opt"], win_vi)
+        if len(ev_opt[ov]) >= 3 and fail_opt[ov] == ev_opt[ov]:
+            # the option itself, not a particular pair of sources: whoever should win with this value never does
+            value = table[c["opt"]]["domain"][win_vi]
+            sig = f"prec|opt={c['opt']}|winner-value={value!r}|never-overrides-a-lower-source"
+            viols.append(Violation(sig,
+                f"{c['opt']} [{c['fmt']}]: {c['settings'][0]['inst']}=value#{c['values'][0]} then "
+                f"{c['settings'][1]['inst']}=value#{c['values'][1]}: documented winner {key[3]} says {value!r}, but for "
+                f"module {MOD} { {k: v for k, v in list(bad.items())[:3]} } (same in all {len(ev_opt[ov])} pair kinds)",
+                {"lane": "b", "opt": c["opt"], "case": c, "bad": bad}))
+        else:
+            by_key[key].append((c, r, bad))
     for key, items in sorted(by_key.items()):
         failing = {(c["opt"], c["fmt"]) for c, _, _ in items}
-        universal = failing == evaluated[key]
+        # one cause for (nearly) every option => a property of the pair of sources, not of an option
+        # (additive list options legitimately pass where scalar ones fail, hence "more than half")
+        universal = 2 * len(failing) > len(evaluated[key])
         for c, r, bad in items:
             a, b, order, w = key
             who = "*" if universal else c["opt"]
@@ -422,13 +442,17 @@ def _pattern_files(cfg: dict, names: dict) -> dict[str, str]:
     return {"mypy.ini": ini_text([("mypy", {})] + [(f"mypy-{p}", kv) for p, kv in secs])}
 
 
-def run_pattern_batch(item: dict) -> list[Any]:
-    """item: {"cfgs": [...], "names": {"B","X","Y"}, "modules": [...]} -> per cfg: per module observed
-    (c1: the bool; c2: [winner index or None for X, same for Y]) or {"rejected": ...}."""
+def run_pattern_batch(item: dict) -> Any:
+    """item: {"cfgs": [...], "names": {"B","X","Y"}, "modules": [...], "judge": {...}|None}.
+
+    Without "judge": per cfg the raw row (per module: c1 the bool; c2 [X list, Y list]) or
+    {"rejected": ...}.  With "judge" (defaults, observed single-pattern relation): the batch is judged
+    here, in the worker, and only the summary travels back."""
     names, mods = item["names"], item["modules"]
     out: list[Any] = []
     for cfg in item["cfgs"]:
-        r = evaluate({"args": ["t.py"], "files": _pattern_files(cfg, names), "modules": mods})
+        r = evaluate({"args": ["t.py"], "files": _pattern_files(cfg, names), "modules": mods,
+                      "module_fields": sorted(set(names.values()))})
         if r["status"] != "ok":
             out.append({"rejected": r.get("complaint", "")})
             continue
@@ -440,7 +464,19 @@ def run_pattern_batch(item: dict) -> list[Any]:
             else:
                 row.append([s[names["X"]], s[names["Y"]]])
         out.append(row)
-    return out
+    j = item.get("judge")
+    if j is None:
+        return out
+    obs_match = {(p, m): v for p, m, v in j["obs_match"]}
+    viols, stats, samples = judge_patterns(item["cfgs"], out, mods, j["defaults"], obs_match)
+    keep: dict[str, list] = defaultdict(list)
+    counts: Counter[str] = Counter()
+    for v in viols:
+        counts[v.signature] += 1
+        if len(keep[v.signature]) < 2:
+            keep[v.signature].append((v.signature, v.what, v.detail))
+    return {"stats": dict(stats), "counts": dict(counts), "kept": [x for vs in keep.values() for x in vs],
+            "samples": samples[:2]}
 
 
 def _shape(pattern: str) -> str:
@@ -537,7 +573,8 @@ WITNESSES: list[dict[str, Any]] = [
     {"opt": "strict", "prog": "def f(x): return x\n"},
     {"opt": "untyped_calls_exclude", "prog": "import lib\ndef g() -> None:\n    lib.f()\n",
      "extra": {"lib.py": "def f(): pass\n"}, "domain": [["lib"]], "with": ["--disallow-untyped-calls"]},
-    {"opt": "deprecated_calls_exclude", "prog": "import lib\nlib.f()\n",
+    # typing_extensions of the fixture stubs needs builtins.tuple, which lib-stub/builtins.pyi lacks
+    {"opt": "deprecated_calls_exclude", "real_only": True, "prog": "import lib\nlib.f()\n",
      "extra": {"lib.py": "from typing_extensions import deprecated\n@deprecated('use g')\ndef f() -> None: ...\n"},
      "domain": [["lib.f"]], "with": ["--enable-error-code", "deprecated"]},
 ]
@@ -556,9 +593,13 @@ def _witness_run(job: dict) -> dict:
             f.write(text)
     for k in ("MYPY_CACHE_DIR", "MYPY_NUM_WORKERS", "MYPYPATH", "MYPY_CONFIG_FILE_DIR"):
         os.environ.pop(k, None)
+    import io
+    import sys
+
     import mypy.defaults
 
     mypy.defaults.USER_CONFIG_FILES[:] = []
+    sys.stdout, sys.stderr = io.StringIO(), io.StringIO()  # this is a throw-away child: keep crash dumps quiet
     try:
         if job.get("real_cli"):
             from mc.drivers import cli_subprocess
@@ -570,6 +611,9 @@ def _witness_run(job: dict) -> dict:
         os.chdir("/")
         shutil.rmtree(d, ignore_errors=True)
     lines = [ln for ln in (r["stdout"] + r["stderr"]).splitlines() if ln.strip()]
+    leaked = sys.stderr.getvalue()  # type: ignore[attr-defined]
+    if "INTERNAL ERROR" in leaked or "Traceback (most recent call last)" in leaked or "INTERNAL ERROR" in "".join(lines):
+        return {"error": "mypy crashed: " + (leaked or "".join(lines))[-300:]}
     return {"lines": lines, "status": r["status"]}
 
 
@@ -587,7 +631,7 @@ def witness_jobs(table: dict, real_cli: bool) -> list[dict]:
     jobs = []
     for w in WITNESSES:
         name = w["opt"]
-        if name not in table:
+        if name not in table or (w.get("real_only") and not real_cli):
             continue
         dom = w.get("domain") or table[name]["domain"]
         common = ["--no-incremental"] + list(w.get("with", []))
@@ -596,9 +640,15 @@ def witness_jobs(table: dict, real_cli: bool) -> list[dict]:
         # the empty configuration is "value index -1"
         cases.append({"opt": name, "vi": -1, "source": "none", "spelling": "", "scope": "G",
                       "args": common + ["m.py"], "files": {}, "inline": None, "frag": None})
+        seen_src: set[tuple] = set()
         for c in cases:
             if c["source"] == "inline" and w.get("no_inline"):
                 continue
+            if real_cli:
+                # the bundled-typeshed lane costs seconds per run: one (canonical) spelling per source
+                if (c["vi"], c["source"]) in seen_src:
+                    continue
+                seen_src.add((c["vi"], c["source"]))
             first = f"# mypy: {c['frag']}\n" if c["source"] == "inline" else "# witness\n"
             tree = {"m.py": first + w["prog"]}
             tree.update(w.get("extra", {}))
@@ -620,9 +670,9 @@ def witness_pair_jobs(table: dict, accepted: dict, real_cli: bool) -> list[dict]
     jobs = []
     insts = [("inline", model.INLINE), ("concrete[m]", model.CONCRETE), ("cmdline", model.CMDLINE), ("global", model.GLOBAL)]
     for name in WITNESS_PAIRS:
-        w = next(x for x in WITNESSES if x["opt"] == name)
+        w = next((x for x in WITNESSES if x["opt"] == name), None)
         opt = table.get(name)
-        if opt is None:
+        if opt is None or w is None:
             continue
         if opt["kind"] == "bool":
             vals: list[Any] = [True, False]
@@ -726,7 +776,7 @@ def judge_witness(table: dict, jobs: list[dict], results: list[dict], herr: list
     insensitive = []
     for w in WITNESSES:
         n = w["opt"]
-        if n in table:
+        if n in table and any(j["opt"] == n for j in jobs):
             outs = set(sens.get(n, set())) | ({J(none_out[n])} if n in none_out else set())
             if len(outs) < 2:
                 insensitive.append(n)
@@ -746,9 +796,10 @@ def judge_witness(table: dict, jobs: list[dict], results: list[dict], herr: list
         wv = j["values"][0] if j["settings"][0]["id"] == win else j["values"][1]
         if wv in dom and (name, dom.index(wv)) in out_of:
             exp = out_of[(name, dom.index(wv))]
-        elif name in none_out and (opt["kind"] != "bool"):
-            exp = none_out[name]  # the "OTHER" value of a list family behaves like no setting
         else:
+            # list families: the loser's element may legitimately stay in force (additive command line),
+            # so a case is only judged when the winner carries the witness value
+            stats["witness_pairs_not_judged_additive"] += 1
             continue
         stats["witness_pairs"] += 1
         if not same_diagnostics(r["lines"], exp)[0]:
@@ -766,14 +817,17 @@ def judge_witness(table: dict, jobs: list[dict], results: list[dict], herr: list
 
 
 def _pmap_batches(fn: Any, cases: list, size: int, herr: list[str], label: str, timeout: float = 1800) -> list:
+    """Run fn over batches of cases on the pool; VERIF_SEED only permutes the submission order."""
     batches = chunked(cases, size)
+    order = seeded_order(list(range(len(batches))), _TIER["seed"])
     out: list[Any] = [None] * len(cases)
-    for bi, _b, st, val in pmap(fn, batches, fresh=False, timeout=timeout):
+    for k, _b, st, val in pmap(fn, [batches[i] for i in order], fresh=False, timeout=timeout):
+        bi = order[k]
         if st != "ok":
             herr.append(f"{label} batch {bi} failed: {str(val)[:400]}")
             continue
-        for k, r in enumerate(val):
-            out[bi * size + k] = r
+        for j, r in enumerate(val):
+            out[bi * size + j] = r
     if any(r is None for r in out):
         raise RuntimeError(f"lane {label} incomplete: " + "; ".join(herr[:3]))
     return out
@@ -824,26 +878,44 @@ def lane_c(table: dict, info_a: dict, ctx: Ctx, herr: list[str], only: list[dict
     else:
         for fmt in ("ini", "toml"):
             cfgs += pattern_configs(accepted, maxsec, "c1", fmt)
-            cfgs += pattern_configs(accepted, min(maxsec, 3), "c2", fmt)
+            if fmt == "ini" or ctx.thorough:
+                cfgs += pattern_configs(accepted, min(maxsec, 3), "c2", fmt)
     size = 60
-    items = [{"cfgs": b, "names": names, "modules": mods} for b in chunked(cfgs, size)]
-    rows_all: list[Any] = [None] * len(cfgs)
-    for bi, _it, st, val in pmap(run_pattern_batch, items, fresh=False, timeout=1800):
+    judge = {"defaults": defaults, "obs_match": [[p, m, v] for (p, m), v in obs_match.items()]}
+    items = [{"cfgs": b, "names": names, "modules": mods, "judge": judge} for b in chunked(cfgs, size)]
+    stats: Counter[str] = Counter()
+    counts: Counter[str] = Counter()
+    kept: dict[str, list[Violation]] = defaultdict(list)
+    samples: list = []
+    done = 0
+    order = seeded_order(list(range(len(items))), ctx.seed)
+    vals: dict[int, Any] = {}
+    for k, _it, st, val in pmap(run_pattern_batch, [items[i] for i in order], fresh=False, timeout=1800):
         if st != "ok":
-            herr.append(f"c batch {bi} failed: {str(val)[:300]}")
+            herr.append(f"c batch {order[k]} failed: {str(val)[:300]}")
             continue
-        for k, r in enumerate(val):
-            rows_all[bi * size + k] = r
-    if any(r is None for r in rows_all):
+        vals[order[k]] = val
+    for bi in sorted(vals):
+        val = vals[bi]
+        done += 1
+        stats.update(val["stats"])
+        counts.update(val["counts"])
+        for sig, what, detail in val["kept"]:  # batches arrive in enumeration order: first kept = simplest
+            if len(kept[sig]) < 3:
+                kept[sig].append(Violation(sig, what, detail))
+        if len(samples) < 3:
+            samples += val["samples"]
+    if done != len(items):
         raise RuntimeError("lane c incomplete: " + "; ".join(herr[:3]))
-    v, stats, samples = judge_patterns(cfgs, rows_all, mods, defaults, obs_match)
+    v = [x for sig in sorted(kept) for x in kept[sig]]
     match_disc = sorted(f"{p}~{m}: doc={model.doc_matches(p, m)} mypy={o}" for (p, m), o in obs_match.items()
                         if o != model.doc_matches(p, m))
     return v, {"stats": dict(stats), "tracked_options": names, "patterns_accepted": accepted,
                "patterns_rejected_by_mypy": [p for p in PATTERNS if p not in accepted],
                "modules": len(mods), "module_depth": depth, "max_sections": maxsec, "configs": len(cfgs),
                "single_pattern_match_discrepancies": match_disc[:60],
-               "single_pattern_match_discrepancy_count": len(match_disc), "samples": samples}
+               "single_pattern_match_discrepancy_count": len(match_disc),
+               "violating_evaluations_by_signature": dict(counts), "samples": samples[:3]}
 
 
 def lane_d(table: dict, ctx: Ctx, herr: list[str], only: list[str] | None = None) -> tuple[list[Violation], dict]:
@@ -878,9 +950,13 @@ def lane_d(table: dict, ctx: Ctx, herr: list[str], only: list[str] | None = None
 
 
 def run(ctx: Ctx) -> Result:
+    # create the scratch root in THIS process: forked workers inherit it, so that the runner's atexit
+    # sweep removes everything (a root first created inside a child would be leaked by os._exit)
+    scratch("c17")
     table = build_table()
     _DEAD.clear()
     _DEAD.update(dead_fields())
+    _TIER.update(thorough=ctx.thorough, seed=ctx.seed)
     herr: list[str] = []
     va, ia, carry, na = lane_a(table, herr)
     log(f"C17 (a): {na} cases, {len(va)} violations")
@@ -964,9 +1040,11 @@ def run(ctx: Ctx) -> Result:
 
 def replay(ctx: Ctx, rec: dict) -> Result:
     d = rec["detail"]
+    scratch("c17")
     table = build_table()
     _DEAD.clear()
     _DEAD.update(dead_fields())
+    _TIER.update(thorough=ctx.thorough, seed=0)
     herr: list[str] = []
     viols: list[Violation] = []
     if d["lane"] in ("a", "b"):
